@@ -3,13 +3,20 @@
 //! `c20 run <cases> <out>` runs the implementation on given case lines (replay / corpus).
 //!
 //! Case line:  <label> <salt> <pool_deposit> <key_deposit> C <certs> W <withdrawals> P <proposals> I <inputs> O <outputs> D <donation>
-//!   certs       = ~ | n { <cddl tag 0..18> <coin | ~> <script 0|1> }*
-//!   withdrawals = ~ | n { <script 0|1> <coin> }*
-//!   proposals   = ~ | n { <deposit> }*
+//!   certs       = ~ | n { <cddl tag 0..18>[/<cred>/<pool>/<var>] <coin | ~> <script 0|1> }*
+//!   withdrawals = ~ | n { <script 0|1>[/<account>] <coin> }*
+//!   proposals   = ~ | n { <deposit>[/<action>/<return address>] }*
 //!   inputs / outputs = n { <coin> }*        donation = ~ | coin
-//! The label only names the generator stream; salt and the position of an item determine every
-//! field the deposit code does not look at (credentials, pool parameters, anchors, MIR amounts …),
-//! so that items are pairwise distinct and a case replays exactly.
+//! The label only names the generator stream.  The identities after the slashes (small numbers) and the
+//! salt determine every field the deposit code does not look at: <cred> the stake / DRep / committee
+//! credential (reward-account credential of a pool registration), <pool> the pool operator, <var>
+//! everything else (other pool parameters, retirement epoch, DRep choice, anchor, MIR amounts, genesis
+//! hashes, hot credential); without them item number i has identity i everywhere, so items are pairwise
+//! different in every field.  Two items are equal Rust values iff their keys in coq/Deposits/Ident.v
+//! (cert_key / wd_key / prop_key) are equal: mk_cert uses exactly the identities uses_cred / uses_pool /
+//! uses_var list for the kind, injectively.  Items are added in order to the plain collections
+//! (Certificates / Withdrawals / VotingProposals) and to the builders; equal certificates / proposals are
+//! merged (or rejected) by the library, a second amount for a reward account replaces the first.
 #![allow(deprecated)]
 use cardano_serialization_lib::*;
 use csl_verif_harness::util::*;
@@ -30,87 +37,101 @@ fn cred(script: bool, salt: u64, i: usize, d: u8) -> Credential {
 fn anchor(salt: u64, i: usize, d: u8) -> Anchor {
     Anchor::new(&URL::new(format!("https://a.example/{}", i)).unwrap(), &AnchorDataHash::from_bytes(fill(salt, i, d, 32)).unwrap())
 }
-fn drep(salt: u64, i: usize) -> DRep {
-    match (salt as usize + i) % 4 {
-        0 => DRep::new_always_abstain(),
-        1 => DRep::new_always_no_confidence(),
-        2 => DRep::new_key_hash(&keyhash(salt, i, 9)),
-        _ => DRep::new_script_hash(&scripthash(salt, i, 9)),
+/// DRep choice: content-free variants only for var 2 / 3, otherwise a hash determined by var (injective in var)
+fn drep(salt: u64, var: usize) -> DRep {
+    match var {
+        2 => DRep::new_always_abstain(),
+        3 => DRep::new_always_no_confidence(),
+        v if v % 2 == 0 => DRep::new_key_hash(&keyhash(salt, v, 9)),
+        v => DRep::new_script_hash(&scripthash(salt, v, 9)),
     }
 }
 fn native_source(salt: u64, i: usize) -> NativeScriptSource {
     NativeScriptSource::new(&NativeScript::new_script_pubkey(&ScriptPubkey::new(&keyhash(salt, i, 10))))
 }
 
+#[derive(Clone, Copy, Debug)]
+struct Id { cred: usize, pool: usize, var: usize }
+
 /// A real certificate of CDDL kind `tag`; `coin` is its explicit amount where the kind has one.
-fn mk_cert(tag: u32, coin: Option<BigNum>, script: bool, salt: u64, i: usize) -> Certificate {
-    let c = cred(script, salt, i, 1);
-    let pool = keyhash(salt, i, 2);
-    let odd = (salt as usize + i) % 2 == 1;
+/// Uses exactly the identities listed by uses_cred / uses_pool / uses_var of coq/Deposits/Ident.v.
+fn mk_cert(tag: u32, coin: Option<BigNum>, script: bool, salt: u64, id: Id) -> Certificate {
+    let c = cred(script, salt, id.cred, 1);
+    let pool = keyhash(salt, id.pool, 2);
+    let var = id.var;
     let amt = || coin.clone().expect("coin for this kind");
     match tag {
         0 => Certificate::new_stake_registration(&StakeRegistration::new(&c)),
         1 => Certificate::new_stake_deregistration(&StakeDeregistration::new(&c)),
         2 => Certificate::new_stake_delegation(&StakeDelegation::new(&c, &pool)),
         3 => {
-            // pledge / cost are coins that are NOT deposits
+            // pledge / cost are coins that are NOT deposits; operator = pool, reward account = cred, the rest = var
             let mut owners = Ed25519KeyHashes::new();
-            owners.add(&keyhash(salt, i, 3));
-            let params = PoolParams::new(&pool, &VRFKeyHash::from_bytes(fill(salt, i, 4, 32)).unwrap(),
-                &BigNum::from(1_000_000_000u64 + i as u64), &BigNum::from(340_000_000u64),
+            owners.add(&keyhash(salt, var, 3));
+            let params = PoolParams::new(&pool, &VRFKeyHash::from_bytes(fill(salt, var, 4, 32)).unwrap(),
+                &BigNum::from(1_000_000_000u64 + var as u64), &BigNum::from(340_000_000u64),
                 &UnitInterval::new(&BigNum::from(1u64), &BigNum::from(20u64)),
-                &RewardAddress::new(0, &cred(script, salt, i, 5)), &owners, &Relays::new(), None);
+                &RewardAddress::new(0, &cred(script, salt, id.cred, 5)), &owners, &Relays::new(), None);
             Certificate::new_pool_registration(&PoolRegistration::new(&params))
         }
-        4 => Certificate::new_pool_retirement(&PoolRetirement::new(&pool, 100 + i as u32)),
+        4 => Certificate::new_pool_retirement(&PoolRetirement::new(&pool, 100 + var as u32)),
         5 => Certificate::new_genesis_key_delegation(&GenesisKeyDelegation::new(
-            &GenesisHash::from_bytes(fill(salt, i, 6, 28)).unwrap(),
-            &GenesisDelegateHash::from_bytes(fill(salt, i, 7, 28)).unwrap(),
-            &VRFKeyHash::from_bytes(fill(salt, i, 8, 32)).unwrap())),
+            &GenesisHash::from_bytes(fill(salt, var, 6, 28)).unwrap(),
+            &GenesisDelegateHash::from_bytes(fill(salt, var, 7, 28)).unwrap(),
+            &VRFKeyHash::from_bytes(fill(salt, var, 8, 32)).unwrap())),
         6 => {
-            // MIR moves coins that are neither deposits nor refunds
-            let mir = if odd {
-                MoveInstantaneousReward::new_to_other_pot(MIRPot::Reserves, &BigNum::from(777_000_000u64 + i as u64))
+            // MIR moves coins that are neither deposits nor refunds; odd var: to the other pot (no credential)
+            let mir = if var % 2 == 1 {
+                MoveInstantaneousReward::new_to_other_pot(MIRPot::Reserves, &BigNum::from(777_000_000u64 + var as u64))
             } else {
                 let mut m = MIRToStakeCredentials::new();
-                m.insert(&c, &Int::new_i32(5_000_000 + i as i32));
+                m.insert(&c, &Int::new_i32(5_000_000 + var as i32));
                 MoveInstantaneousReward::new_to_stake_creds(MIRPot::Treasury, &m)
             };
             Certificate::new_move_instantaneous_rewards_cert(&MoveInstantaneousRewardsCert::new(&mir))
         }
         7 => Certificate::new_reg_cert(&StakeRegistration::new_with_explicit_deposit(&c, &amt())).unwrap(),
         8 => Certificate::new_unreg_cert(&StakeDeregistration::new_with_explicit_refund(&c, &amt())).unwrap(),
-        9 => Certificate::new_vote_delegation(&VoteDelegation::new(&c, &drep(salt, i))),
-        10 => Certificate::new_stake_and_vote_delegation(&StakeAndVoteDelegation::new(&c, &pool, &drep(salt, i))),
+        9 => Certificate::new_vote_delegation(&VoteDelegation::new(&c, &drep(salt, var))),
+        10 => Certificate::new_stake_and_vote_delegation(&StakeAndVoteDelegation::new(&c, &pool, &drep(salt, var))),
         11 => Certificate::new_stake_registration_and_delegation(&StakeRegistrationAndDelegation::new(&c, &pool, &amt())),
-        12 => Certificate::new_vote_registration_and_delegation(&VoteRegistrationAndDelegation::new(&c, &drep(salt, i), &amt())),
+        12 => Certificate::new_vote_registration_and_delegation(&VoteRegistrationAndDelegation::new(&c, &drep(salt, var), &amt())),
         13 => Certificate::new_stake_vote_registration_and_delegation(
-            &StakeVoteRegistrationAndDelegation::new(&c, &pool, &drep(salt, i), &amt())),
-        14 => Certificate::new_committee_hot_auth(&CommitteeHotAuth::new(&c, &cred(!script && odd, salt, i, 11))),
-        15 => Certificate::new_committee_cold_resign(&if odd { CommitteeColdResign::new(&c) } else { CommitteeColdResign::new_with_anchor(&c, &anchor(salt, i, 12)) }),
-        16 => Certificate::new_drep_registration(&if odd { DRepRegistration::new(&c, &amt()) } else { DRepRegistration::new_with_anchor(&c, &amt(), &anchor(salt, i, 12)) }),
+            &StakeVoteRegistrationAndDelegation::new(&c, &pool, &drep(salt, var), &amt())),
+        14 => Certificate::new_committee_hot_auth(&CommitteeHotAuth::new(&c, &cred(!script && var % 2 == 1, salt, var, 11))),
+        // the anchor is absent only for var 1
+        15 => Certificate::new_committee_cold_resign(&if var == 1 { CommitteeColdResign::new(&c) } else { CommitteeColdResign::new_with_anchor(&c, &anchor(salt, var, 12)) }),
+        16 => Certificate::new_drep_registration(&if var == 1 { DRepRegistration::new(&c, &amt()) } else { DRepRegistration::new_with_anchor(&c, &amt(), &anchor(salt, var, 12)) }),
         17 => Certificate::new_drep_deregistration(&DRepDeregistration::new(&c, &amt())),
-        18 => Certificate::new_drep_update(&if odd { DRepUpdate::new(&c) } else { DRepUpdate::new_with_anchor(&c, &anchor(salt, i, 12)) }),
+        18 => Certificate::new_drep_update(&if var == 1 { DRepUpdate::new(&c) } else { DRepUpdate::new_with_anchor(&c, &anchor(salt, var, 12)) }),
         _ => panic!("bad tag"),
     }
 }
 
-fn mk_proposal(deposit: &BigNum, salt: u64, i: usize) -> VotingProposal {
-    let action = match (salt as usize + i) % 4 {
+/// governance action and anchor from `act`, return address from `ret`
+fn mk_proposal(deposit: &BigNum, salt: u64, act: usize, ret: usize) -> VotingProposal {
+    let action = match act % 4 {
         0 => GovernanceAction::new_info_action(&InfoAction::new()),
         1 => GovernanceAction::new_no_confidence_action(&NoConfidenceAction::new()),
-        2 => GovernanceAction::new_hard_fork_initiation_action(&HardForkInitiationAction::new(&ProtocolVersion::new(10 + i as u32, 0))),
-        _ => GovernanceAction::new_new_constitution_action(&NewConstitutionAction::new(&Constitution::new(&anchor(salt, i, 13)))),
+        2 => GovernanceAction::new_hard_fork_initiation_action(&HardForkInitiationAction::new(&ProtocolVersion::new(10 + act as u32, 0))),
+        _ => GovernanceAction::new_new_constitution_action(&NewConstitutionAction::new(&Constitution::new(&anchor(salt, act, 13)))),
     };
-    VotingProposal::new(&action, &anchor(salt, i, 14), &RewardAddress::new(0, &cred(false, salt, i, 15)), deposit)
+    VotingProposal::new(&action, &anchor(salt, act, 14), &RewardAddress::new(0, &cred(false, salt, ret, 15)), deposit)
 }
 
 struct Case {
     salt: u64, pool: BigNum, key: BigNum,
-    certs: Option<Vec<(u32, Option<BigNum>, bool)>>,
-    wdrl: Option<Vec<(bool, BigNum)>>,
-    props: Option<Vec<BigNum>>,
+    certs: Option<Vec<(u32, Option<BigNum>, bool, Id)>>,
+    wdrl: Option<Vec<(bool, usize, BigNum)>>,
+    props: Option<Vec<(BigNum, usize, usize)>>,
     ins: Vec<BigNum>, outs: Vec<BigNum>, donation: Option<BigNum>,
+}
+
+/// "x" or "x/a/b/..": the head and the identities after it
+fn split_ids(tok: &str) -> (&str, Vec<usize>) {
+    let mut it = tok.split('/');
+    let head = it.next().unwrap();
+    (head, it.map(|x| x.parse().expect("identity")).collect())
 }
 
 struct P<'a> { t: &'a [String], i: usize }
@@ -126,12 +147,20 @@ fn parse(toks: &[String]) -> Case {
     let salt: u64 = p.next().parse().unwrap();
     let pool = bn(p.next()); let key = bn(p.next());
     p.expect("C");
-    let certs = p.count().map(|n| (0..n).map(|_| {
-        let tag: u32 = p.next().parse().unwrap(); let coin = p.opt_bn(); let s = p.next() == "1"; (tag, coin, s) }).collect());
+    let certs = p.count().map(|n| (0..n).map(|i| {
+        let (tag, ids) = split_ids(p.next());
+        let id = match ids.len() { 0 => Id { cred: i, pool: i, var: i }, 3 => Id { cred: ids[0], pool: ids[1], var: ids[2] }, _ => panic!("case syntax: certificate identities") };
+        let tag: u32 = tag.parse().unwrap(); let coin = p.opt_bn(); let s = p.next() == "1"; (tag, coin, s, id) }).collect());
     p.expect("W");
-    let wdrl = p.count().map(|n| (0..n).map(|_| { let s = p.next() == "1"; (s, bn(p.next())) }).collect());
+    let wdrl = p.count().map(|n| (0..n).map(|i| {
+        let (s, ids) = split_ids(p.next());
+        let acct = match ids.len() { 0 => i, 1 => ids[0], _ => panic!("case syntax: withdrawal identity") };
+        (s == "1", acct, bn(p.next())) }).collect());
     p.expect("P");
-    let props = p.count().map(|n| (0..n).map(|_| bn(p.next())).collect());
+    let props = p.count().map(|n| (0..n).map(|i| {
+        let (d, ids) = split_ids(p.next());
+        let (act, ret) = match ids.len() { 0 => (i, i), 2 => (ids[0], ids[1]), _ => panic!("case syntax: proposal identities") };
+        (bn(d), act, ret) }).collect());
     p.expect("I");
     let ins = (0..p.count().unwrap()).map(|_| bn(p.next())).collect();
     p.expect("O");
@@ -171,12 +200,12 @@ fn new_tx_builder(c: &Case) -> TransactionBuilder {
 fn exec(toks: &[String]) -> String {
     let c = parse(toks);
     // the items themselves
-    let certs: Option<Vec<Certificate>> = c.certs.as_ref().map(|v| v.iter().enumerate()
-        .map(|(i, (tag, coin, s))| mk_cert(*tag, coin.clone(), *s, c.salt, i)).collect());
-    let wdrl: Option<Vec<(RewardAddress, BigNum)>> = c.wdrl.as_ref().map(|v| v.iter().enumerate()
-        .map(|(i, (s, coin))| (RewardAddress::new(0, &cred(*s, c.salt, i, 16)), coin.clone())).collect());
-    let props: Option<Vec<VotingProposal>> = c.props.as_ref().map(|v| v.iter().enumerate()
-        .map(|(i, d)| mk_proposal(d, c.salt, i)).collect());
+    let certs: Option<Vec<Certificate>> = c.certs.as_ref().map(|v| v.iter()
+        .map(|(tag, coin, s, id)| mk_cert(*tag, coin.clone(), *s, c.salt, *id)).collect());
+    let wdrl: Option<Vec<(RewardAddress, BigNum)>> = c.wdrl.as_ref().map(|v| v.iter()
+        .map(|(s, acct, coin)| (RewardAddress::new(0, &cred(*s, c.salt, *acct, 16)), coin.clone())).collect());
+    let props: Option<Vec<VotingProposal>> = c.props.as_ref().map(|v| v.iter()
+        .map(|(d, act, ret)| mk_proposal(d, c.salt, *act, *ret)).collect());
 
     // (a) a transaction body carrying them, and the stand-alone helpers
     let mut ins = TransactionInputs::new();
@@ -184,18 +213,18 @@ fn exec(toks: &[String]) -> String {
     let mut body = TransactionBody::new_tx_body(&ins, &TransactionOutputs::new(), &BigNum::from(170000u64));
     let mut certs_coll = Certificates::new();
     if let Some(cs) = &certs {
-        for x in cs { assert!(certs_coll.add(x), "generated certificates are distinct"); }
+        for x in cs { certs_coll.add(x); }                         // false for a certificate the set already holds
         body.set_certs(&certs_coll);
     }
     let mut wdrl_coll = Withdrawals::new();
     if let Some(ws) = &wdrl {
-        for (a, v) in ws { assert!(wdrl_coll.insert(a, v).is_none(), "generated reward addresses are distinct"); }
+        for (a, v) in ws { wdrl_coll.insert(a, v); }               // Some(old amount) when the account is replaced
         body.set_withdrawals(&wdrl_coll);
     }
+    let mut props_coll = VotingProposals::new();
     if let Some(ps) = &props {
-        let mut coll = VotingProposals::new();
-        for x in ps { assert!(coll.add(x), "generated proposals are distinct"); }
-        body.set_voting_proposals(&coll);
+        for x in ps { props_coll.add(x); }
+        body.set_voting_proposals(&props_coll);
     }
     let hd = sc(get_deposit(&body, &c.pool, &c.key));
     let hi = sv(get_implicit_input(&body, &c.pool, &c.key));
@@ -208,7 +237,8 @@ fn exec(toks: &[String]) -> String {
     let mut cb = CertificatesBuilder::new();
     if let Some(cs) = &certs {
         for (i, x) in cs.iter().enumerate() {
-            if cb.add(x).is_err() { cb.add_with_native_script(x, &native_source(c.salt, i)).unwrap(); }
+            // Err: needs a script witness (then the native-script entry point), or "Certificate already exists"
+            if cb.add(x).is_err() { let _ = cb.add_with_native_script(x, &native_source(c.salt, i)); }
         }
     }
     let cd = sc(cb.get_certificates_deposit(&c.pool, &c.key));
@@ -247,8 +277,16 @@ fn exec(toks: &[String]) -> String {
         (sc(tb2.get_deposit()), sv(tb2.get_implicit_input()))
     } else { ("-".to_string(), "-".to_string()) };
 
-    let fields = format!("hd={} hi={} hd2={} hi2={} cd={} cr={} wt={} bd={} bi={} ti={} to={} xd={} xi={} sc={} sw={} dd={} di={}",
-        hd, hi, hd2, hi2, cd, cr, wt, bd, bi, ti, to, xd, xi, okerr(&r1), okerr(&r2), dd, di);
+    // sizes of the six collections (0 for an absent one)
+    let nc = if certs.is_some() { certs_coll.len() } else { 0 };
+    let nb = if certs.is_some() { cb.build().len() } else { 0 };
+    let nw = if wdrl.is_some() { wdrl_coll.len() } else { 0 };
+    let nwb = if wdrl.is_some() { wb.build().len() } else { 0 };
+    let np = if props.is_some() { props_coll.len() } else { 0 };
+    let npb = if props.is_some() { pb.build().len() } else { 0 };
+
+    let fields = format!("hd={} hi={} hd2={} hi2={} cd={} cr={} wt={} bd={} bi={} ti={} to={} xd={} xi={} sc={} sw={} dd={} di={} nc={} nb={} nw={} nwb={} np={} npb={}",
+        hd, hi, hd2, hi2, cd, cr, wt, bd, bi, ti, to, xd, xi, okerr(&r1), okerr(&r2), dd, di, nc, nb, nw, nwb, np, npb);
     // first token: `ovf` when some figure is an overflow error, `ok` otherwise (only for the case distribution)
     format!("{} {}", if fields.contains("=err") { "ovf" } else { "ok" }, fields)
 }
@@ -267,18 +305,28 @@ fn param(r: &mut Rng) -> u64 {
 }
 
 struct G { salt: u64, pool: u64, key: u64, certs: Option<Vec<(u32, Option<u64>, bool)>>, wdrl: Option<Vec<(bool, u64)>>,
-           props: Option<Vec<u64>>, ins: Vec<u64>, outs: Vec<u64>, donation: Option<u64> }
+           props: Option<Vec<u64>>, ins: Vec<u64>, outs: Vec<u64>, donation: Option<u64>,
+           // identities, parallel to certs / wdrl / props (None: item i has identity i everywhere)
+           cert_ids: Option<Vec<Id>>, wd_ids: Option<Vec<usize>>, prop_ids: Option<Vec<(usize, usize)>> }
 impl G {
-    fn empty(r: &mut Rng) -> G { G { salt: r.next() >> 1, pool: 500_000_000, key: 2_000_000, certs: None, wdrl: None, props: None, ins: vec![], outs: vec![], donation: None } }
+    fn empty(r: &mut Rng) -> G { G { salt: r.next() >> 1, pool: 500_000_000, key: 2_000_000, certs: None, wdrl: None, props: None, ins: vec![], outs: vec![], donation: None,
+                                     cert_ids: None, wd_ids: None, prop_ids: None } }
     fn line(&self, label: &str) -> String {
         let mut s = format!("{} {} {} {} C", label, self.salt, self.pool, self.key);
         match &self.certs { None => s.push_str(" ~"), Some(v) => { s.push_str(&format!(" {}", v.len()));
-            for (t, c, sc) in v { s.push_str(&format!(" {} {} {}", t, c.map(|x| x.to_string()).unwrap_or("~".into()), *sc as u8)); } } }
+            for (i, (t, c, sc)) in v.iter().enumerate() {
+                let ids = match &self.cert_ids { Some(ids) => format!("/{}/{}/{}", ids[i].cred, ids[i].pool, ids[i].var), None => String::new() };
+                s.push_str(&format!(" {}{} {} {}", t, ids, c.map(|x| x.to_string()).unwrap_or("~".into()), *sc as u8)); } } }
         s.push_str(" W");
         match &self.wdrl { None => s.push_str(" ~"), Some(v) => { s.push_str(&format!(" {}", v.len()));
-            for (sc, c) in v { s.push_str(&format!(" {} {}", *sc as u8, c)); } } }
+            for (i, (sc, c)) in v.iter().enumerate() {
+                let ids = match &self.wd_ids { Some(ids) => format!("/{}", ids[i]), None => String::new() };
+                s.push_str(&format!(" {}{} {}", *sc as u8, ids, c)); } } }
         s.push_str(" P");
-        match &self.props { None => s.push_str(" ~"), Some(v) => { s.push_str(&format!(" {}", v.len())); for c in v { s.push_str(&format!(" {}", c)); } } }
+        match &self.props { None => s.push_str(" ~"), Some(v) => { s.push_str(&format!(" {}", v.len()));
+            for (i, c) in v.iter().enumerate() {
+                let ids = match &self.prop_ids { Some(ids) => format!("/{}/{}", ids[i].0, ids[i].1), None => String::new() };
+                s.push_str(&format!(" {}{}", c, ids)); } } }
         s.push_str(&format!(" I {}", self.ins.len())); for c in &self.ins { s.push_str(&format!(" {}", c)); }
         s.push_str(&format!(" O {}", self.outs.len())); for c in &self.outs { s.push_str(&format!(" {}", c)); }
         s.push_str(" D "); s.push_str(&self.donation.map(|x| x.to_string()).unwrap_or("~".into()));
@@ -328,6 +376,7 @@ fn gen(dir: &str) {
             g.pool = param(&mut r); g.key = param(&mut r);
             let c = if HAS_COIN[tag as usize] { Some(if v % 3 == 0 { r.u64_edge() } else { small_coin(&mut r) }) } else { None };
             g.certs = Some(vec![(tag, c, v % 2 == 1)]);
+            g.cert_ids = Some(vec![Id { cred: r.below(4) as usize, pool: r.below(4) as usize, var: r.below(8) as usize }]);
             if v % 6 >= 4 { g.wdrl = Some(vec![(false, small_coin(&mut r))]); g.props = Some(vec![small_coin(&mut r)]); }
             emit(&mut out, g.line(&format!("kind{}", tag)));
         }
@@ -447,6 +496,173 @@ fn gen(dir: &str) {
         g.wdrl = Some((0..r.below(30)).map(|_| (false, r.below(1u64 << 59))).collect());
         g.props = Some((0..r.below(20)).map(|_| r.below(1u64 << 59)).collect());
         emit(&mut out, g.line("long"));
+    }
+
+    // 8. items that share SOME identifying field and differ in another, and exact duplicates: what the sets / maps merge
+    //    and what they keep apart.  Small identity pools, several scenarios, amounts realistic or at the 64-bit edge.
+    for n in 0..(260 * scale) {
+        let mut g = G::empty(&mut r);
+        g.pool = param(&mut r); g.key = param(&mut r);
+        let edge = r.chance(1, 4);
+        let mut coin = |r: &mut Rng| if edge { match r.below(4) { 0 => 1u64 << 63, 1 => u64::MAX, 2 => (1u64 << 63) - 1, _ => r.u64_edge() } }
+                                     else { match r.below(5) { 0 => 0, 1 => 2_000_000, 2 => 500_000_000, _ => r.below(3_000_000) } };
+        let mut certs: Vec<(u32, Option<u64>, bool)> = vec![];
+        let mut ids: Vec<Id> = vec![];
+        let sid = |r: &mut Rng| r.below(3) as usize;
+        let label;
+        match n % 6 {
+            0 => {
+                // one pool operator: several registrations (other parameters equal or different), its retirement, delegations to it
+                label = "shared-pool";
+                let op = sid(&mut r); let other = op + 1 + sid(&mut r);
+                for _ in 0..(2 + r.below(3)) {
+                    certs.push((3, None, r.chance(1, 4)));
+                    ids.push(Id { cred: sid(&mut r), pool: if r.chance(4, 5) { op } else { other }, var: r.below(3) as usize });
+                }
+                for _ in 0..r.below(4) {
+                    let t = *r.pick(&[2u32, 4, 10, 11, 13]);
+                    certs.push((t, if HAS_COIN[t as usize] { Some(coin(&mut r)) } else { None }, false));
+                    ids.push(Id { cred: sid(&mut r), pool: op, var: sid(&mut r) });
+                }
+            }
+            1 => {
+                // one stake credential registered through several kinds (0, 7, 11, 12, 13), deregistered (1, 8), delegated
+                label = "shared-stake";
+                let c = sid(&mut r); let sc = r.chance(1, 4);
+                for _ in 0..(2 + r.below(5)) {
+                    let t = *r.pick(&[0u32, 7, 11, 12, 13, 1, 8, 2, 9]);
+                    certs.push((t, if HAS_COIN[t as usize] { Some(coin(&mut r)) } else { None }, sc));
+                    ids.push(Id { cred: if r.chance(5, 6) { c } else { c + 1 }, pool: sid(&mut r), var: sid(&mut r) });
+                }
+            }
+            2 => {
+                // one DRep credential registered (same / other amount, same / other anchor), updated, deregistered
+                label = "shared-drep";
+                let c = sid(&mut r); let sc = r.chance(1, 4);
+                let a = coin(&mut r);
+                for _ in 0..(2 + r.below(5)) {
+                    let t = *r.pick(&[16u32, 16, 17, 18, 14, 15]);
+                    certs.push((t, if HAS_COIN[t as usize] { Some(if r.chance(2, 3) { a } else { coin(&mut r) }) } else { None }, sc));
+                    ids.push(Id { cred: if r.chance(5, 6) { c } else { c + 1 }, pool: 0, var: r.below(3) as usize });
+                }
+            }
+            3 => {
+                // exact duplicates of arbitrary certificates, inserted anywhere
+                label = "dup";
+                for _ in 0..(1 + r.below(5)) {
+                    certs.push(rand_cert(&mut r, &mut coin, 15));
+                    ids.push(Id { cred: r.below(6) as usize, pool: r.below(6) as usize, var: r.below(6) as usize });
+                }
+                for _ in 0..(1 + r.below(4)) {
+                    let k = r.below(certs.len() as u64) as usize;
+                    let pos = r.below(certs.len() as u64 + 1) as usize;
+                    let (c, i) = (certs[k], ids[k]);
+                    certs.insert(pos, c); ids.insert(pos, i);
+                }
+            }
+            4 => {
+                // near duplicates: a certificate and copies that differ in exactly one of amount / credential kind /
+                // credential / operator / rest; whether that is another Rust value depends on the kind
+                label = "near-dup";
+                let base = rand_cert(&mut r, &mut coin, 30);
+                let bid = Id { cred: sid(&mut r), pool: sid(&mut r), var: r.below(6) as usize };
+                certs.push(base); ids.push(bid);
+                for _ in 0..(1 + r.below(5)) {
+                    let (mut c, mut i) = (base, bid);
+                    match r.below(6) {
+                        0 => { if let Some(x) = c.1 { c.1 = Some(if r.chance(1, 2) { x ^ 1 } else { coin(&mut r) }); } }
+                        1 => { c.2 = !c.2; }
+                        2 => { i.cred += 1; }
+                        3 => { i.pool += 1; }
+                        4 => { i.var += 1 + r.below(3) as usize; }
+                        _ => {}
+                    }
+                    let pos = r.below(certs.len() as u64 + 1) as usize;
+                    certs.insert(pos, c); ids.insert(pos, i);
+                }
+            }
+            _ => {
+                // random kinds over small identity pools: frequent accidental sharing and merging
+                label = "mix-ids";
+                for _ in 0..r.below(10) {
+                    certs.push(rand_cert(&mut r, &mut coin, 15));
+                    ids.push(Id { cred: sid(&mut r), pool: sid(&mut r), var: sid(&mut r) });
+                }
+            }
+        }
+        if !certs.is_empty() || r.chance(1, 2) { g.certs = Some(certs); g.cert_ids = Some(ids); }
+        // withdrawals: accounts from a small pool, so that an account is often given two or three amounts (replacement)
+        if r.chance(2, 3) {
+            let k = r.below(6) as usize;
+            g.wdrl = Some((0..k).map(|_| (r.chance(1, 6), coin(&mut r))).collect());
+            g.wd_ids = Some((0..k).map(|_| r.below(3) as usize).collect());
+        }
+        // proposals: action / return address / deposit from small pools: equal ones are merged, near-equal ones are not
+        if r.chance(2, 3) {
+            let k = r.below(6) as usize;
+            let a = coin(&mut r);
+            g.props = Some((0..k).map(|_| if r.chance(2, 3) { a } else { coin(&mut r) }).collect());
+            g.prop_ids = Some((0..k).map(|_| (r.below(2) as usize, r.below(2) as usize)).collect());
+        }
+        if r.chance(1, 3) { g.ins = vec![coin(&mut r)]; }
+        if r.chance(1, 3) { g.outs = vec![coin(&mut r)]; }
+        if r.chance(1, 6) { g.donation = Some(coin(&mut r)); }
+        emit(&mut out, g.line(label));
+    }
+    // 9. merging decides between a number and an overflow.  The items that REMAIN after merging sum to 2^64 + d
+    //    (d in -2..=2).  "merged": a part is given a second time as an EQUAL item (certificate / proposal) or an account
+    //    first gets an amount that would overflow on its own and then its part (withdrawal): counting the extra item
+    //    overflows.  "kept": two items carry the SAME amount and differ in one other field: merging them loses a part.
+    for n in 0..(120 * scale) {
+        let mut g = G::empty(&mut r);
+        let d = r.below(5) as i128 - 2;
+        let total = ((1u128 << 64) as i128 + d) as u128;
+        let k = 2 + r.below(3) as usize;
+        let equal = r.chance(1, 2);
+        // parts[0] occurs twice: as an equal item (merged, not part of the total) or as a near-equal one (part of the total)
+        let parts: Vec<u64> = if equal { split(&mut r, total, k) } else {
+            let p0 = 2 + r.below(1u64 << 63);
+            let mut v = vec![p0];
+            v.extend(split(&mut r, total - 2 * p0 as u128, k - 1));
+            v
+        };
+        let k = parts.len();
+        let pos = 1 + r.below(k as u64) as usize;
+        match n % 3 {
+            0 => {
+                // DRep registrations (explicit amounts); the near-equal one has another anchor
+                let mut certs: Vec<(u32, Option<u64>, bool)> = parts.iter().map(|p| (16u32, Some(*p), false)).collect();
+                let mut ids: Vec<Id> = (0..k).map(|i| Id { cred: i, pool: 0, var: 4 }).collect();
+                certs.insert(pos, (16, Some(parts[0]), false));
+                ids.insert(pos, Id { cred: 0, pool: 1, var: if equal { 4 } else { 6 } });   // the operator is no field of a DRep registration
+                g.certs = Some(certs); g.cert_ids = Some(ids);
+                emit(&mut out, g.line(if equal { "ovf-merged-cert" } else { "ovf-kept-cert" }));
+            }
+            1 => {
+                // proposals; the near-equal one has another return address
+                let mut props: Vec<u64> = parts.clone();
+                let mut ids: Vec<(usize, usize)> = (0..k).map(|i| (i, 0)).collect();
+                props.insert(pos, parts[0]);
+                ids.insert(pos, if equal { (0, 0) } else { (0, 1) });
+                g.props = Some(props); g.prop_ids = Some(ids);
+                emit(&mut out, g.line(if equal { "ovf-merged-prop" } else { "ovf-kept-prop" }));
+            }
+            _ => {
+                let mut w: Vec<(bool, u64)> = parts.iter().map(|p| (false, *p)).collect();
+                let mut ids: Vec<usize> = (0..k).collect();
+                if equal {
+                    // account 0 is first given an amount that overflows the rest, its part comes later (also a third time)
+                    w[0].1 = if r.chance(1, 2) { u64::MAX } else { parts[0] ^ 1 };
+                    w.insert(pos, (false, parts[0])); ids.insert(pos, 0);
+                    if r.chance(1, 3) { w.push((false, parts[0])); ids.push(0); }
+                } else {
+                    // the same amount for another account (same number, script credential)
+                    w.insert(pos, (true, parts[0])); ids.insert(pos, 0);
+                }
+                g.wdrl = Some(w); g.wd_ids = Some(ids);
+                emit(&mut out, g.line(if equal { "ovf-replaced-wd" } else { "ovf-kept-wd" }));
+            }
+        }
     }
     out.finish();
 }
